@@ -72,28 +72,57 @@ def in_domain_wxml(s):
     return True
 
 
-def in_domain_css(s):
-    d = 0
+def css_depth(s):
+    """Block nesting depth as the CSS tokeniser sees it: a closer ends a block only when it matches the
+    innermost open one (a mismatched closer is an error token and the block stays open); brackets inside
+    strings and comments are text. Where the two readings of a quote could differ (an unterminated
+    string ends at the newline) openers still count, so the result over-approximates."""
+    stack = []
     m = 0
-    for ch in s:
+    pair = {")": "(", "]": "[", "}": "{"}
+    i, n = 0, len(s)
+    while i < n:
+        ch = s[i]
+        if ch == "/" and s.startswith("/*", i):
+            j = s.find("*/", i + 2)
+            i = n if j < 0 else j + 2
+            continue
+        if ch in "\"'":
+            j = i + 1
+            opened = 0
+            while j < n and s[j] != ch and s[j] not in "\n\r\f":
+                if s[j] == "\\":
+                    j += 1
+                elif s[j] in "([{":
+                    opened += 1
+                j += 1
+            if j >= n or s[j] != ch:
+                # bad string: what follows the line break is tokenised again; count its openers as open
+                for _ in range(opened):
+                    stack.append("?")
+                m = max(m, len(stack))
+            i = j + 1
+            continue
+        if ch == "\\":
+            i += 2
+            continue
         if ch in "([{":
-            d += 1
-            m = max(m, d)
+            stack.append(ch)
+            m = max(m, len(stack))
         elif ch in ")]}":
-            d = max(0, d - 1)
-    return m <= 64
+            if stack and stack[-1] == pair[ch]:
+                stack.pop()
+        i += 1
+    return m
+
+
+def in_domain_css(s):
+    return css_depth(s) <= 64
 
 
 def nesting_depth(s, kind):
     if kind == "css":
-        d = m = 0
-        for ch in s:
-            if ch in "([{":
-                d += 1
-                m = max(m, d)
-            elif ch in ")]}":
-                d = max(0, d - 1)
-        return m
+        return css_depth(s)
     d = m = 0
     for mm in re.finditer(r"<(/?)[A-Za-z_]", s):
         if mm.group(1):
@@ -209,7 +238,7 @@ LADDER_FAMILIES_CSS = {
     "imports": lambda n: "@import url(x) layer(a) supports(b:c) screen;" * (n // 45),
     "hosts": lambda n: "@media x{" + ":host{a:1rpx}" * (n // 13) + "}",
     "calc": lambda n: "a{b:" + "calc(1rpx + " * 60 + "1" + ")" * 60 + "}" + "c{d:calc(1 + 2)}" * (n // 16),
-    "garbage": lambda n: "}{)(][;:@" * (n // 9),
+    "garbage": lambda n: ("}{)(][;:@" * 20 + "])}" * 20) * (n // 240),
     "strings": lambda n: "a{b:\"" + "\\" * (n // 2) + "x\"}",
     "comments": lambda n: "/*" * (n // 2),
     "selectors": lambda n: ":not(" * 60 + ".a" + ")" * 60 + "{}" + ".a.b.c" * (n // 6) + "{}",
